@@ -6,11 +6,11 @@ import "strings"
 
 // C20 — require: loader runs at most once, cached identical value, loop detection, missing-module report.
 //
-//verif:harness prop=C20 tier=quick bounds="2 preloaded modules (m with one of 6 loader behaviours (returns a value / nothing / stores package.loaded itself / fails / requires itself / stores and returns different values), optionally required twice before its loader is registered, k returning a symbolic number) + host-registered module h; history of 3 requires: m, then a 1-byte symbolic name, then m again; Lua and Go loaders"
+//verif:harness prop=C20 tier=quick bounds="2 preloaded modules (m with one of 7 loader behaviours (returns a value / nothing / stores package.loaded itself / fails / requires itself / stores and returns different values / returns false), optionally required twice before its loader is registered, k returning a symbolic number) + host-registered module h; history of 3 requires: m, then a 1-byte symbolic name, then m again, then m after package.loaded.m = nil; Lua and Go loaders"
 func H_C20_require() {
 	L := newL(Options{}, LoadLibName, BaseLibName)
 	v, w := VFloat("v"), VFloat("w")
-	beh := VChoice(6)
+	beh := VChoice(7)
 	early := VChoice(2) == 1 // the module is required once before any loader for it exists
 	goLoader := VChoice(2) == 1
 	calls := 0
@@ -40,6 +40,10 @@ func H_C20_require() {
 			loaded := L.GetField(L.GetField(L.Get(EnvironIndex), "package"), "loaded")
 			L.SetField(loaded, "m", LNumber(v))
 			L.Push(LNumber(w))
+			return 1
+		case 6:
+			// false is a value, but not one that marks the module as loaded (ll_require tests lua_toboolean)
+			L.Push(LFalse)
 			return 1
 		}
 		return 0
@@ -95,6 +99,9 @@ func H_C20_require() {
 		loaded := L.GetField(L.GetField(L.GetGlobal("package"), "loaded"), "m")
 		VAssert(sameValue(loaded, r1), "require: package.loaded holds what require returned")
 	}
+	if beh == 6 {
+		VAssert(e1 == nil && r1 == LFalse, "require: a loader returning false yields false")
+	}
 	VAssert(calls == 1, "require: the loader ran once")
 	// step 2: a symbolic module name
 	name2 := VStr("name", 1)
@@ -123,6 +130,19 @@ func H_C20_require() {
 		VAssert(e3 == nil && sameValue(r3, r1), "require: third require still returns the cached value")
 		VAssert(calls == 1, "require: loader count stays 1")
 	}
+	if beh == 6 {
+		VAssert(e3 == nil && r3 == LFalse && calls >= 2, "require: a module whose loader returned false is loaded again by the next require, through its preload entry")
+	}
+	// step 4: forced reload
+	if beh <= 1 {
+		loaded := L.GetField(L.GetGlobal("package"), "loaded")
+		L.SetField(loaded, "m", LNil)
+		r4, e4 := req("m")
+		VAssert(e4 == nil && calls == 2, "require: after package.loaded[name] is cleared the preload entry is used again")
+		if beh == 0 {
+			VAssert(sameValue(r4, LNumber(v)), "require: the reloaded module's value")
+		}
+	}
 	VReach("end")
 }
 
@@ -141,5 +161,31 @@ func H_C20_missing() {
 	VAssert(strings.Contains(msg, "zz_nomod"), "missing: names the module")
 	VAssert(strings.Contains(msg, "package.preload['zz_nomod']"), "missing: lists the preload lookup")
 	VAssert(strings.Contains(msg, "./zz_nomod.lua") && strings.Contains(msg, "./x/zz_nomod.lua"), "missing: lists every path tried")
+	VReach("end")
+}
+
+// C20.missingdots — every dot of a module name is a directory separator in every path tried.
+//
+//verif:harness prop=C20 tier=quick bounds="module names of 5 symbolic bytes over {a, .} with a letter at both ends (all dot layouts incl. consecutive dots); package.path with 2 templates; os.Stat stubbed (no file exists)"
+func H_C20_missingdots() {
+	L := newL(Options{}, LoadLibName, BaseLibName)
+	VAssert(L.DoString(`package.path = "./?.lua;./x/?.lua"`) == nil, "missingdots: set path")
+	nm := []byte(VStr("nm", 5))
+	want := make([]byte, 5)
+	for i, c := range nm {
+		VAssume(c == 'a' || c == '.')
+		if c == '.' {
+			want[i] = '/'
+		} else {
+			want[i] = c
+		}
+	}
+	VAssume(nm[0] == 'a' && nm[4] == 'a')
+	L.Push(L.GetGlobal("require"))
+	L.Push(LString(string(nm)))
+	err := L.PCall(1, 1, nil)
+	VAssert(err != nil, "missingdots: a missing module is an error")
+	msg := err.Error()
+	VAssert(strings.Contains(msg, "./"+string(want)+".lua") && strings.Contains(msg, "./x/"+string(want)+".lua"), "missingdots: each template is tried with every dot of the name turned into a separator")
 	VReach("end")
 }
